@@ -128,12 +128,14 @@ Fixpoint add_objs (who : Z) (ts : list otype) (st : store) : list Z * store :=
 Definition remove_obj (u : Z) (st : store) : store :=
   {| objs := filter (fun o => negb (uid o =? u)) (objs st); next_uid := next_uid st |}.
 
-Fixpoint check_bases (who : Z) (st : store) (bases : list Z) : resp :=
+(* DeriveKey looks every base up (policy operation Get) before it derives anything *)
+Inductive bases_r := BNotFound | BDenied | BOk.
+Fixpoint check_bases (who : Z) (st : store) (bases : list Z) : bases_r :=
   match bases with
-  | [] => RFound
+  | [] => BOk
   | b :: bs => match access who PGet (Some b) st with
-               | ANotFound => RNotFound
-               | ADenied => RDenied
+               | ANotFound => BNotFound
+               | ADenied => BDenied
                | AOk _ => check_bases who st bs
                end
   end.
@@ -144,7 +146,7 @@ Definition last_id (ids : list Z) : option Z := match rev ids with x :: _ => Som
 
 Definition create (who : Z) (ts : list otype) (gate : bool) (st : store) (ph : option Z)
   : resp * store * option Z :=
-  if gate then let '(ids, st') := add_objs who ts st in (RIssued ids, st', last_id ids)
+  if gate then let '(ids, st') := add_objs who ts st in (RIssued ids, st', match last_id ids with Some x => Some x | None => ph end)
   else (RFailed, st, ph).
 
 (* one _process_<operation> call.  ver = self._protocol_version, who = self._client_identity[0],
@@ -158,8 +160,9 @@ Definition step_item (ver who : Z) (st : store) (ph : option Z) (it : item) : re
   | ORegister t => create who [t] gate st ph
   | ODeriveKey bases t =>
       match check_bases who st bases with
-      | RFound => create who [t] gate st ph
-      | r => (r, st, ph)
+      | BOk => create who [t] gate st ph
+      | BNotFound => (RNotFound, st, ph)
+      | BDenied => (RDenied, st, ph)
       end
   | ODestroy tgt =>
       match access who PDestroy (resolve tgt ph) st with
